@@ -2,7 +2,7 @@
 From Coq Require Import List ZArith NArith Bool.
 Import ListNotations.
 From GS Require Import Num EventLoop Kernel Sim.
-From GS.Proofs Require Import Aux SimP SimP3.
+From GS.Proofs Require Import Aux SimP SimP3 TraceSpec TimerSpec.
 
 Section C12.
 Context {F : Type} (A : ArithOps F) {PS : Type} (cfg : scfg F)
@@ -37,9 +37,28 @@ Proof. apply (sim_exec_cbs A cfg react h now (EvTelemetry n pos)). Qed.
 Theorem C12_first_update : has_mob cfg = true -> sim_reqs0 A cfg = [(fadd A (f0 A) (c_rate cfg), EvTick)].
 Proof. intros Hm. unfold sim_reqs0. rewrite Hm. reflexivity. Qed.
 
+(** WHOLE RUNS (every run is accepted by the acceptor of Proofs/TimerSpec.v): a telemetry
+    callback happens only right after the execution of a telemetry event for that node carrying
+    that very position, at the event's time; and every such event is followed by its callback. *)
+Theorem C12_telemetry_callback_only_from_its_event x0 pre n t pos post :
+  accept (t_next A cfg) t_ok x0 (pre ++ KUser (TCb n t (CbTelemetry pos)) :: post) -> t_exp x0 = None ->
+  exists pre' i ts sq, pre = pre' ++ [KExec i ts sq (EvTelemetry n pos)] /\ t = pnow A cfg ts.
+Proof. exact (telemetry_callback_has_cause A cfg x0 pre n t pos post). Qed.
+
+Theorem C12_telemetry_event_calls_back x0 pre i ts sq n pos post :
+  accept (t_next A cfg) t_ok x0 (pre ++ KExec i ts sq (EvTelemetry n pos) :: post) -> n < c_nnodes cfg ->
+  (post = [] /\ t_exp (after (t_next A cfg) x0 (pre ++ [KExec i ts sq (EvTelemetry n pos)])) = Some (n, pnow A cfg ts, CbTelemetry pos)) \/
+  exists post', post = KUser (TCb n (pnow A cfg ts) (CbTelemetry pos)) :: post'.
+Proof.
+  intros Hacc Hn. apply (cause_fires A cfg x0 pre _ post n (pnow A cfg ts) (CbTelemetry pos) Hacc).
+  simpl. apply Nat.ltb_lt in Hn. rewrite Hn. reflexivity.
+Qed.
+
 End C12.
 
 Print Assumptions C12_update_requests.
 Print Assumptions C12_payload_is_position_after_update.
 Print Assumptions C12_telemetry_callback.
 Print Assumptions C12_first_update.
+Print Assumptions C12_telemetry_callback_only_from_its_event.
+Print Assumptions C12_telemetry_event_calls_back.
